@@ -716,6 +716,27 @@ func (x *rtExt) resetBetween(from, to int64) bool {
 	return false
 }
 
+// resetCertain: some ResetConnectBackoff call happened after the failed dial d
+// returned and clearly before its backoff timer (lower bound over the possible
+// indexes) could fire, and the next dial followed that call at once.
+func (x *rtExt) resetCertain(b rtBackoff, d, next *rtDial, wait map[int]bool) bool {
+	lo := math.Inf(1)
+	for n := range wait {
+		l, _, _ := rtBackoffBounds(b, n)
+		lo = math.Min(lo, l)
+	}
+	w := x.timeWindow()
+	for _, a := range x.w.sc.Actions {
+		if a.Kind != "reset_backoff" {
+			continue
+		}
+		if a.AtNs > d.endAt+w && float64(a.AtNs) < float64(d.endAt)+lo-float64(w) && next.startAt >= a.AtNs && next.startAt <= a.AtNs+w {
+			return true
+		}
+	}
+	return false
+}
+
 func (x *rtExt) checkC20() {
 	e := x.w.e
 	b := x.backoffCfg()
@@ -830,7 +851,12 @@ func (x *rtExt) checkC20() {
 		}
 		// next index
 		nidx := map[int]bool{}
-		if outcome == "fail" || outcome == "unknown" {
+		if outcome == "fail" && next != nil && !resetDuring && x.resetCertain(b, d, next, wait) {
+			// a reset that lies well inside the backoff wait, before the timer
+			// can have fired, woke the subchannel: the next dial starts from 0
+			nidx[0] = true
+			e.Probe("rt_backoff_reset_certain")
+		} else if outcome == "fail" || outcome == "unknown" {
 			for n := range wait {
 				nidx[min(n+1, capIdx)] = true
 			}
@@ -880,4 +906,19 @@ func (x *rtExt) backoffRider(b rtBackoff) {
 		}
 	}
 	e.Probe("rt_backoff_rider_evaluated")
+	// "never negative for any configuration ... saturating rather than wrapping
+	// for very large delays": delays near the top of time.Duration's range
+	for _, c := range []backoff.Config{
+		{BaseDelay: time.Second, Multiplier: 1.6, Jitter: 0.2, MaxDelay: time.Duration(math.MaxInt64)},
+		{BaseDelay: time.Second, Multiplier: 10, Jitter: 0, MaxDelay: time.Duration(math.MaxInt64)},
+		{BaseDelay: time.Duration(math.MaxInt64 / 2), Multiplier: 3, Jitter: 1, MaxDelay: time.Duration(math.MaxInt64)},
+		{BaseDelay: time.Hour, Multiplier: 2, Jitter: 0.2, MaxDelay: time.Duration(math.MaxInt64 - 1000)},
+	} {
+		for _, n := range []int{1, 2, 50, 100, 1000} {
+			if d := (ibackoff.Exponential{Config: c}).Backoff(n); d < 0 {
+				e.Violate("c20_rider_backoff_wraps_negative", "Backoff(%d) = %d ns (negative) for base %d ns, multiplier %v, jitter %v, max %d ns: the float64 -> int64 conversion wraps instead of saturating", n, int64(d), int64(c.BaseDelay), c.Multiplier, c.Jitter, int64(c.MaxDelay))
+				return
+			}
+		}
+	}
 }
